@@ -100,6 +100,12 @@ class UserCallPlugin:
                     return v.is_async
                 raise Unsupported(f'iscoroutinefunction({v!r})')
             return (LibFn(dotted, f),)
+        if dotted == 'inspect.getdoc':
+            def getdoc(it_, ca):
+                used(it_, 'inspect.getdoc: an uninterpreted function of the object (a string or None)')
+                v = ca.args[0]
+                return lower(z3.Function('getdoc', PyV, PyV)(lift(v, it_.st)), it_.st) if isinstance(v, SymV) else None
+            return (LibFn(dotted, getdoc),)
         if dotted == 'inspect':
             return (LibRef('inspect'),)
         if dotted == 'uuid.uuid4':
